@@ -131,7 +131,7 @@ def trace_jobs(prop, tier):
         if prop in ("C01", "C02", "C03", "C04", "C09", "C10", "C15", "C16") else []
     if q:
         ts = ["u32", "Ipv6Net", "u8", "Ipv4Inet"]
-        return [TraceJob(t, prof, runs=4, events=300, salt=i) for i, t in enumerate(ts)] + extra
+        return [TraceJob(t, prof, runs=6, events=400, salt=i) for i, t in enumerate(ts)] + extra
     return [TraceJob(t, prof, runs=10, events=1500, salt=i) for i, t in enumerate(ALL_TYPES)] + \
            [TraceJob(t, "core", runs=6, events=3000, salt=100 + i) for i, t in enumerate(["u32", "u128", "Ipv4Net"])] + extra
 
@@ -252,7 +252,7 @@ def plan(prop, tier):
         pops = ["Union", "Inter", "Diff", "CovDiff", "UnionMut"]
         return [TableJob("c18_u2", mut + obs, mut + obs, hosts='{"0","2"}' if q else '{"0","1","2"}', maxcount=2, maxnodes=3, timeout=600,
                          targets=targets(hostful) + targets(["u32"], ("set",))),
-                PairJob("c18_pairs", IR, IR, pops, 2, 2, hosts='{"0","2"}', timeout=200, nodes_a=2 if q else 3, nodes_b=2,
+                PairJob("c18_pairs", IR, IR, pops, 2, 2, hosts='{"0","2"}', timeout=200 if q else 2400, nodes_a=2 if q else 3, nodes_b=2,
                         targets=[(t, "map-map", "plain") for t in (["u32", "Ipv6Net"] if q else hostful)])]
     if prop == "C20":
         allobs = ["Get", "GetKV", "Contains", "Lpm", "Spm", "Cover", "Children", "Iter", "Len", "ViewDesc", "Find", "Misc", "SplitOp"]
